@@ -45,8 +45,8 @@ func rewardStep(x *engine.Exec, ref *rewRef, oracle string) []engine.Failure {
 			if gr.Cmp(lo) < 0 || gr.Cmp(hi) > 0 {
 				cause := ""
 				for _, k := range claimed {
-					if ref.Skew[k] {
-						cause = "asset-split-uses-totals-at-settlement"
+					if ref.Skew[k] != "" {
+						cause = ref.Skew[k]
 					}
 				}
 				if ref.Tainted {
